@@ -35,6 +35,8 @@ use std::collections::{BTreeMap, BTreeSet};
 use std::ffi::{CStr, CString};
 use std::io::{self, Read, Seek, SeekFrom, Write};
 use std::sync::atomic::{AtomicI64, Ordering};
+use std::cell::Cell;
+use std::sync::mpsc::{sync_channel, Receiver, SyncSender};
 use std::sync::{Arc, Mutex};
 use std::time::Duration;
 
@@ -60,6 +62,15 @@ struct LogLayer {
     /// fault injection: when > 0, counts layer lookups down; the lookup that reaches 0 fails once
     /// with EMFILE (a transient resource fault of the host)
     fault: Arc<AtomicI64>,
+    /// schedule control: a thread marked SLOW is parked at its first `forget` (which the overlay
+    /// calls between scanning a directory and recording the scan) until the gate is opened
+    gate: Gate,
+}
+
+type Gate = Arc<Mutex<Option<(SyncSender<()>, Receiver<()>)>>>;
+
+thread_local! {
+    static SLOW: Cell<bool> = const { Cell::new(false) };
 }
 
 impl LogLayer {
@@ -78,6 +89,13 @@ impl FileSystem for LogLayer {
         self.inner.lookup(ctx, parent, name)
     }
     fn forget(&self, ctx: &Context, inode: u64, count: u64) {
+        if SLOW.with(|s| s.get()) {
+            let hook = self.gate.lock().unwrap().take();
+            if let Some((entered, go)) = hook {
+                let _ = entered.send(());
+                let _ = go.recv_timeout(Duration::from_secs(20));
+            }
+        }
         self.inner.forget(ctx, inode, count)
     }
     fn getattr(&self, ctx: &Context, inode: u64, handle: Option<u64>) -> io::Result<(stat64, Duration)> {
@@ -210,18 +228,19 @@ impl Layer for LogLayer {
 
 type BoxedLayer = Box<dyn Layer<Inode = u64, Handle = u64> + Send + Sync>;
 
-fn new_layer(dir: &str, idx: usize, log: &CallLog, fault: &Arc<AtomicI64>) -> io::Result<Arc<BoxedLayer>> {
+fn new_layer(dir: &str, idx: usize, log: &CallLog, fault: &Arc<AtomicI64>, gate: &Gate) -> io::Result<Arc<BoxedLayer>> {
     // exactly the documented construction (tests/overlay): new + import, xattr on, never `init`
     let cfg = PtConfig { root_dir: dir.to_string(), xattr: true, do_import: true, ..Default::default() };
     let fs = PassthroughFs::<()>::new(cfg)?;
     fs.import()?;
-    Ok(Arc::new(Box::new(LogLayer { inner: fs, idx, log: log.clone(), fault: fault.clone() }) as BoxedLayer))
+    Ok(Arc::new(Box::new(LogLayer { inner: fs, idx, log: log.clone(), fault: fault.clone(), gate: gate.clone() }) as BoxedLayer))
 }
 
 struct Inst {
     fs: OverlayFs,
     log: CallLog,
     fault: Arc<AtomicI64>,
+    gate: Gate,
 }
 
 fn layer_dir(base: &str, i: usize) -> String {
@@ -231,15 +250,16 @@ fn layer_dir(base: &str, i: usize) -> String {
 fn build(base: &str, up: bool, nl: usize) -> io::Result<Inst> {
     let log: CallLog = Arc::new(Mutex::new(Vec::new()));
     let fault = Arc::new(AtomicI64::new(0));
-    let upper = if up { Some(new_layer(&layer_dir(base, 0), 0, &log, &fault)?) } else { None };
+    let gate: Gate = Arc::new(Mutex::new(None));
+    let upper = if up { Some(new_layer(&layer_dir(base, 0), 0, &log, &fault, &gate)?) } else { None };
     let mut lowers = Vec::new();
     for i in 1..=nl {
-        lowers.push(new_layer(&layer_dir(base, i), i, &log, &fault)?);
+        lowers.push(new_layer(&layer_dir(base, i), i, &log, &fault, &gate)?);
     }
     let cfg = OvlConfig { do_import: true, ..Default::default() };
     let fs = OverlayFs::new(upper, lowers, cfg)?;
     fs.import()?;
-    Ok(Inst { fs, log, fault })
+    Ok(Inst { fs, log, fault, gate })
 }
 
 fn errno(e: &io::Error) -> String {
@@ -497,6 +517,44 @@ fn walk(inst: &Inst, io: &Io, orc: &mut Vec<(String, String)>) -> BTreeMap<Strin
         }
     }
     out
+}
+
+/// `race,<path>`: the request is `unlink,<path>`, but a second client thread performs the first
+/// LOOKUP of the parent directory concurrently and is parked between scanning the directory and
+/// recording the scan until this thread has looked the directory up itself and finished the
+/// UNLINK.  Sequentially equivalent to the unlink alone (a lookup changes nothing visible).
+fn race_unlink(inst: &Inst, io: &Io, op: &[&str], orc: &mut Vec<(String, String)>, stats: &mut Vec<String>) -> String {
+    let path = op[1];
+    let (pp, _) = match split_parent(path) {
+        Some(x) => x,
+        None => return do_op(inst, io, op, orc),
+    };
+    let (gp, d) = match split_parent(pp) {
+        Some(x) => x,
+        None => return do_op(inst, io, op, orc), // parent is the root: loaded at import
+    };
+    let gino = match resolve(inst, gp) {
+        Ok((i, st)) if kind_of(&st) == 'd' => i,
+        _ => return do_op(inst, io, op, orc),
+    };
+    let (entered_tx, entered_rx) = sync_channel::<()>(1);
+    let (go_tx, go_rx) = sync_channel::<()>(1);
+    *inst.gate.lock().unwrap() = Some((entered_tx, go_rx));
+    let mut res = String::new();
+    std::thread::scope(|sc| {
+        let slow = sc.spawn(|| {
+            SLOW.with(|s| s.set(true));
+            let _ = inst.fs.lookup(&Context::default(), gino, &cname(d));
+            SLOW.with(|s| s.set(false));
+        });
+        let parked = entered_rx.recv_timeout(Duration::from_millis(400)).is_ok();
+        stats.push(format!("race:{}", if parked { "second-client-parked" } else { "no-park" }));
+        res = do_op(inst, io, op, orc);
+        let _ = go_tx.send(());
+        let _ = slow.join();
+    });
+    *inst.gate.lock().unwrap() = None;
+    res
 }
 
 fn oflags(s: &str) -> i32 {
@@ -1010,7 +1068,12 @@ fn exec(line: &str, base: &str) -> CaseOut {
         host::union(&refs)
     };
     for o in ops.iter() {
-        let op: Vec<&str> = o.split(',').collect();
+        let mut op: Vec<&str> = o.split(',').collect();
+        let racing = op[0] == "race";
+        if racing {
+            op[0] = "unlink";
+            out.stats.push("op:race".to_string());
+        }
         let name = op[0];
         out.stats.push(format!("op:{}", name));
         if name == "fwalk" {
@@ -1028,7 +1091,7 @@ fn exec(line: &str, base: &str) -> CaseOut {
         let before = scan_layers(base);
         inst.log.lock().unwrap().clear();
         let mut orc: Vec<(String, String)> = Vec::new();
-        let res = do_op(&inst, &io, &op, &mut orc);
+        let res = if racing { race_unlink(&inst, &io, &op, &mut orc, &mut out.stats) } else { do_op(&inst, &io, &op, &mut orc) };
         let calls: BTreeSet<String> = inst.log.lock().unwrap().iter().map(|(i, m)| format!("{}:{}", i, m)).collect();
         let raw_calls: Vec<(usize, &'static str)> = inst.log.lock().unwrap().clone();
         out.stats.push(format!("res:{}:{}", name, if res.starts_with("ok") { "ok" } else { res.as_str() }));
@@ -1210,7 +1273,7 @@ fn copy_up_oracle(before: &[BTreeMap<String, Node>], after: &[BTreeMap<String, N
 // ------------------------------------------------------------------ generation
 
 const NAMES: [char; 5] = ['a', 'b', 'c', 'd', 'e'];
-const DMODES: [u32; 5] = [0o755, 0o700, 0o775, 0o711, 0o777];
+const DMODES: [u32; 7] = [0o755, 0o700, 0o775, 0o711, 0o777, 0o1777, 0o1770];
 const FMODES: [u32; 6] = [0o644, 0o600, 0o666, 0o755, 0o444, 0o640];
 
 fn gen_dir(r: &mut Prng, path: &str, depth: usize, lowest: bool, out: &mut host::LayerSpec) {
@@ -1295,6 +1358,30 @@ fn gen_case(r: &mut Prng, prop: &str) -> String {
     let walk_every = if prop == "C11" { r.chance(3, 4) } else { r.chance(1, 3) };
     let mut ops: Vec<String> = Vec::new();
     let mut n = 0;
+    if r.chance(1, 5) {
+        // two clients meet in a directory nobody has loaded yet
+        let deep: Vec<&String> = known.iter().filter(|p| p.len() >= 2).collect();
+        // prefer a directory holding a name present in the upper and in a lower layer (the overlay
+        // forgets the shadowed lower entry after its scan: that is where the second client parks)
+        let mut shadowed: Vec<String> = Vec::new();
+        if up {
+            for (p, _) in layers[0].iter().filter(|(p, _)| p.len() >= 2) {
+                if layers[1..].iter().any(|l| l.iter().any(|(q, _)| q == p)) {
+                    let d = &p[..p.len() - 1];
+                    for q in known.iter().filter(|q| q.len() == p.len() && q.starts_with(d)) {
+                        shadowed.push(q.clone());
+                    }
+                }
+            }
+        }
+        if !shadowed.is_empty() && r.chance(4, 5) {
+            ops.push(format!("race,{}", r.pick(&shadowed)));
+            ops.push("walk".to_string());
+        } else if !deep.is_empty() {
+            ops.push(format!("race,{}", r.pick(&deep)));
+            ops.push("walk".to_string());
+        }
+    }
     if r.chance(1, 4) {
         // nothing is loaded yet: the fault hits the first directory loads
         ops.push(format!("fwalk,{}", r.range(1, 8)));
